@@ -422,3 +422,122 @@ def replay_graph(graph, adapter, verdict, stats, only=None, sample_every=997):
                 stats.sample({"from": graph.states[fk], "op": op, "variant": variant,
                               "predicted": outs[0][0], "observed": got}, cap=5)
     return n
+
+
+# ---------------------------------------------------------------- generic adapter / trace validation
+
+def first_diff(a, b, prefix=""):
+    """Name of the first field in which two JSON values differ (None if equal)."""
+    if isinstance(a, dict) and isinstance(b, dict):
+        for k in sorted(set(a) | set(b)):
+            if k not in a or k not in b:
+                return prefix + k
+            d = first_diff(a[k], b[k], prefix + k + ".")
+            if d:
+                return d
+        return None
+    return None if a == b else (prefix.rstrip(".") or "value")
+
+
+class GenericAdapter:
+    """Adapter whose observe() returns exactly the JSON shape of the specification's Obs.
+
+    step() returns (obj, got) with got = {"r": result, ["also_t": [obs...], "also_f": [obs...]]}:
+    also_t observations must equal the predicted observations of the target state,
+    also_f those of the source state (e.g. the source of a copy, re-read after the copy
+    was mutated)."""
+    subject = "?"
+    name = "?"
+
+    def variants(self, op):
+        return [None]
+
+    def match(self, got, pred):
+        return None if got["r"] == pred["r"] else "result"
+
+    def compare(self, obs, pobs, st):
+        return first_diff(obs, pobs)
+
+    def signature(self, st, op, variant, got, obs, outs):
+        return {}
+
+
+def replay_graph_generic(graph, adapter, verdict, stats, only=None):
+    """Like replay_graph, with also_t / also_f handling."""
+    base_match = adapter.match
+
+    class Wrap:
+        pass
+    # source-state observations are checked inside match via a closure over the graph
+    cur = {}
+
+    def match(got, pred):
+        w = base_match(got, pred)
+        if w:
+            return w
+        for i, o in enumerate(got.get("also_t", [])):
+            d = first_diff(o, graph.obs[canon(pred["s"])])
+            if d:
+                return "also_t[%d].%s" % (i, d)
+        return None
+    adapter.match = match
+    try:
+        return replay_graph(graph, adapter, verdict, stats, only=only)
+    finally:
+        adapter.match = base_match
+
+
+def validate_traces_generic(specdir, module, cfg, traces, stats, verdict, subject, env=None, shards=None,
+                            sig_extra=None):
+    """traces: list of {"init":..., "ev": [{"op", "r", "obs", ...}], ...}. The TLA+ trace module
+    prints ACCEPT tid or a REJECT payload {tid, l, st, exp}."""
+    if not traces:
+        return 0
+    shards = shards or min(NCPU, max(1, len(traces) // 40))
+    parts = [traces[i::shards] for i in range(shards)]
+    tmp = tempfile.mkdtemp(prefix="vtr-")
+
+    def run(i):
+        f = os.path.join(tmp, "t%d.json" % i)
+        with open(f, "w") as fh:
+            json.dump(parts[i], fh)
+        e = {"TRACE_FILE": f}
+        e.update(env or {})
+        return tlc(specdir, module, cfg, workers=1, env=e, timeout=3000)
+    try:
+        results = parallel(run, range(shards))
+    finally:
+        shutil.rmtree(tmp, ignore_errors=True)
+    accepted = 0
+    for i, r in enumerate(results):
+        if not r.ok:
+            raise MachineryError("%s TLC run failed:\n%s" % (module, "\n".join(r.out.splitlines()[-30:])))
+        stats.add_tlc(r)
+        acc = {a[1] for a in r.raw_tuples("ACCEPT")}
+        rej = {}
+        for p in r.payloads("REJECT"):
+            rej.setdefault(p["tid"], p)
+        for j, tr in enumerate(parts[i], 1):
+            stats.trace_events += len(tr["ev"])
+            if j in acc:
+                accepted += 1
+                continue
+            p = rej.get(j)
+            if p is None:
+                raise MachineryError("trace %d of shard %d has neither ACCEPT nor REJECT" % (j, i))
+            ev = tr["ev"][p["l"] - 1]
+            exp = p.get("exp")
+            what = "trace-rejected"
+            if isinstance(exp, list) and exp and isinstance(exp[0], dict) and "r" in exp[0]:
+                if all(e_["r"] != ev.get("r") for e_ in exp):
+                    what = "result"
+                elif "obs" in exp[0]:
+                    what = first_diff(ev.get("obs"), exp[0]["obs"]) or "trace-rejected"
+            sig = {"subject": subject, "op": ev["op"].get("op"), "variant": ev.get("variant") or None, "what": what}
+            if sig_extra:
+                sig.update(sig_extra(tr, ev) or {})
+            verdict.fail(sig, {"trace_meta": {k: v for k, v in tr.items() if k != "ev"}, "rejected_at_event": p["l"],
+                               "event": ev, "spec_state_before": p.get("st"), "spec_expected": exp,
+                               "history": [e["op"] for e in tr["ev"][:p["l"]]]})
+    stats.traces_accepted += accepted
+    return accepted
